@@ -407,7 +407,11 @@ func postC11(res *RunResult) {
 					addViolation(res, c, res.Stats.impl[i], "success on a stream cut inside the frame")
 				}
 			case "chained":
-				// success requires the data to be a whole number of frames
+				// success requires the data to be a whole number of frames, and at least one: a stream
+				// that ends before its first byte is not the end of a chain
+				if len(dc.data) == 0 {
+					addViolation(res, c, res.Stats.impl[i], "chained success on a stream that ends before its first byte (no file was decoded)")
+				}
 				pos := 0
 				for pos < len(dc.data) {
 					fl, ok := frameLen(dc.data[pos:])
